@@ -94,12 +94,12 @@ theorem resolve_top {V : List Str} {q0 : Str → Str} {D : Nat} (hs : Sep V q0 D
     (s : RS) (h : ShapeV V q0 s) (p : Str) (hp : p ∈ V) :
     resolveStep o deeper lvl skip s p = some (s.setAlias p (uniqueName p lvl)) := by
   unfold resolveStep
-  cases hsr : searchIn (o.pk s.imps) (uniqueName p lvl) with
+  cases hsr : searchIn (o.pk s.all) (uniqueName p lvl) with
   | none => rfl
   | some c =>
     have hc := searchIn_some_mem _ _ _ hsr
-    have hcm : c ∈ s.imps := ho _ _ hc.1
-    have hcs := h c (List.mem_append_left _ hcm)
+    have hcm : c ∈ s.all := ho _ _ hc.1
+    have hcs := h c hcm
     have : c.path = p := by
       apply Classical.byContradiction
       intro hne
@@ -154,7 +154,7 @@ theorem resolve_terminates {V : List Str} {q0 : Str → Str} {D : Nat} (hs : Sep
                 ShapeV V q0 s1 ∧ s1.paths = s0.paths := by
         intro skip s0 p hsh0 hp0
         unfold resolveStep
-        cases hsr : searchIn (o.pk s0.imps) (uniqueName p lvl) with
+        cases hsr : searchIn (o.pk s0.all) (uniqueName p lvl) with
         | none =>
           exact ⟨_, rfl, rsStep_shape hs hsh0 (setAlias_step s0 p lvl), rsStep_paths (setAlias_step s0 p lvl)⟩
         | some c =>
@@ -163,8 +163,13 @@ theorem resolve_terminates {V : List Str} {q0 : Str → Str} {D : Nat} (hs : Sep
           · exact ⟨_, rfl, rsStep_shape hs hsh0 (setAlias_step s0 p lvl), rsStep_paths (setAlias_step s0 p lvl)⟩
           · rename_i hcond
             have hc := searchIn_some_mem _ _ _ hsr
-            have hcm : c ∈ s0.imps := ho _ _ hc.1
-            have hcp : c.path ∈ s0.paths := List.mem_append_left _ (List.mem_map.mpr ⟨c, hcm, rfl⟩)
+            have hcm : c ∈ s0.all := ho _ _ hc.1
+            have hcp : c.path ∈ s0.paths := by
+              unfold RS.all at hcm
+              unfold RS.paths
+              rcases List.mem_append.mp hcm with hh | hh
+              · exact List.mem_append_left _ (List.mem_map.mpr ⟨c, hh, rfl⟩)
+              · simp only [List.mem_singleton] at hh; subst hh; simp
             have hne : p ≠ c.path := fun e => hcond (Or.inl e.symm)
             obtain ⟨s1, h1'⟩ := ih (lvl + 1) s0 p c.path (by omega) (by omega) hsh0 hp0 hcp hne
             have fr := resolve_frame o (k + 1) s0 s1 p c.path (lvl + 1) h1'
